@@ -739,3 +739,36 @@ def arg_binding(ctx):
     name while the callee has a parameter of the variable's own name elsewhere (argument inserted / dropped / swapped)."""
     from .common_argsel import arg_binding as run
     run(ctx, ['transactions', 'blocks', 'scripts'], 'a field is parsed / serialised with the value of its neighbour')
+
+
+@PROP.obligation('C06.field-representation', canaries=[
+    mut.replace_expr('wallets', 'Wallet.send', 'transaction.raw()', 'transaction.raw_hex()', 'rawtx stored as hex text by one writer'),
+])
+def field_representation(ctx):
+    """Every attribute of Transaction / Input / Output / Block is written in ONE representation by all its writers in transactions.py,
+    blocks.py and wallets.py (bytes, hex text, int, list ... inferred from the shape of the assigned expression; unknown shapes are not
+    judged): a writer that stores hex text where the others store bytes makes the serialisers and the database layer fail or differ
+    for objects that took that path only."""
+    from .. import ftype
+    allw = {}
+    for mod, cov in (('transactions', {}), ('blocks', {}), ('wallets', {'rt': 'Transaction', 'transaction': 'Transaction'})):
+        for k, v in ftype.writers(ctx.repo.mod(mod), cov).items():
+            key = ('Transaction', k[1]) if k[0] == 'WalletTransaction' else k
+            allw.setdefault(key, []).extend(v)
+    n = 0
+    for (cls, attr), ws in sorted(allw.items()):
+        if cls not in ('Transaction', 'Input', 'Output', 'Block'):
+            continue
+        known = [(t, q, node) for t, q, node in ws if t not in ('none', 'unknown')]
+        n += len(known)
+        ts = sorted(set(t for t, _, _ in known))
+        if len(ts) > 1:
+            # the minority writers are reported
+            counts = {t: sum(1 for x in known if x[0] == t) for t in ts}
+            major = max(ts, key=lambda t: counts[t])
+            for t, q, node in known:
+                if t != major:
+                    ctx.violate(q, '%s.%s is written as %s here (`%s`) and as %s by %d other writer(s)' % (cls, attr, t, norm(node.value)[:60], major, counts[major]), node,
+                                'objects that took this path carry the field in another representation: serialisation / storing fails or differs')
+    ctx.saw('%d typed writes to attributes of Transaction / Input / Output / Block compared' % n)
+    ctx.floor(n, 60, 'typed attribute writes')
